@@ -283,6 +283,11 @@ class Registry:
             env["path"] = T(M.NilV, "NilType")
         env.update(kws)
         env["kwargs"] = kwrest if kwrest is not None else Kw(ex.kw_empty)
+        incoming = getattr(ex, "contract_args", {}).get("kwargs")
+        if kwrest is not None and incoming is not None and z3.is_expr(incoming):
+            ex.oblige(st, f"call:Accept[{con.qualname}]:kwargs-forwarded-unchanged", "requires", kwrest.z == incoming,
+                      ("C16",), text="the **kwargs handed to a member's __accept__ are the incoming ones",
+                      where=ex.where())
         ex.opaque_calls.add(f"Accept[{con.qualname}]")
         return self._apply(ex, con, f"Accept[{con.qualname}]", None, env, st)
 
